@@ -289,7 +289,7 @@ PROPS = {
     },
     "C20": {
         "module": "Shutter.Properties.C20",
-        "theorems": ["C20_all_once", "C20_any_order", "C20_only_pending"],
+        "theorems": ["C20_all_once", "C20_any_order", "C20_only_pending", "C20_every_interval"],
         "driver": {"pkg": "./cmd/epkcheck"},
         "trusted_base": [KERNEL, CORR,
                          "pgfake + kdb: the PostgreSQL wire fake and my Go reading of GetAndDeleteEonPublicKeys (delete all pending rows, "
@@ -301,7 +301,12 @@ PROPS = {
                        "pending. The real handler runs over an in-process PostgreSQL fake through multi-tick scenarios with 0..4 pending "
                        "keys per tick and is compared with the model; the property is also evaluated directly on what was broadcast / "
                        "passed to the callback.",
-        "assumptions": ["a pending key whose eon or keyper set is not stored yet is deleted without being handed over (the inner joins of the "
+        "assumptions": ["a hand-over the mechanism refuses ends the tick; the keys behind it were deleted with it and are not offered: 'provided "
+                        "that mechanism accepts it' is read as a statement about the mechanism during that tick (a broadcast or a callback that "
+                        "fails for one key is taken to fail for the next), and C20_all_once / C20_every_interval assume every key of the tick is "
+                        "accepted; ticks that ended in an error do not stop later ones (C20_every_interval in the model; the real loop is run "
+                        "at a 20 ms interval with a refused key followed by a later one)",
+                        "a pending key whose eon or keyper set is not stored yet is deleted without being handed over (the inner joins of the "
                         "query); the keyper stores eon and batch config before the DKG result, so this does not arise on the code paths that "
                         "insert pending keys"],
     },
